@@ -342,6 +342,25 @@ class HHRun:
                     # the query above changed the cache; mirror it in the model
                     s = " ".join(f"{self.kid.get(a, '?')}:{int(b)}" for a, b in ans)
                     self.ops.append([f"hh.query {i} 1 {2 * f - t['N']}", s, "exact"])
+        # over-long lookups whose length wraps in 8 bits (256 + L, 512 + L bytes, L < max_key_len) and whose first L bytes are a stored key: the key's
+        # identity is its first max_key_len bytes; the lookup may refuse (the unchanged code raises ValueError) but may not answer for another key
+        # (in-memory sketches only: an exception raised inside a Numba kernel keeps its array arguments referenced, and a shared block then cannot be closed)
+        if len(self.ops) % 3 == 0 and not self.handles:
+            for kid0, kb0 in list(enumerate(self.ident))[:4]:
+                if len(kb0) >= self.mkl or t["true"].get(kid0, 0) == 0:
+                    continue
+                for extra in (256, 512):
+                    probe = kb0 + b"x" * extra
+                    ident = probe[: self.mkl]
+                    f_id = t["true"].get(self.kid.get(ident, -1), 0)
+                    try:
+                        got = int(h[probe])
+                    except Exception:
+                        self.stats["overlong_refused"] = self.stats.get("overlong_refused", 0) + 1
+                        continue
+                    self.stats["overlong_answered"] = self.stats.get("overlong_answered", 0) + 1
+                    if got > f_id:
+                        self._fail("C03", f"hh[key] for a {len(probe)}-byte key starting with the stored key {kb0!r} = {got}, but the key's identity {ident!r} has true count {f_id} (sketch {i})")
         self.ops.append([f"hh.get {i} {self.rng.randrange(len(self.ident))}", None, "aux"])
         kid = int(self.ops[-1][0].split()[-1])
         self.ops[-1][1] = str(int(h[self.ident[kid]]))
@@ -418,8 +437,8 @@ def run_slice(res, rng, tier, pids, n_cases, budget_s, label="hh"):
         if run.nontrivial():
             res.count("cases_with_shared_cell")
             res.nontrivial(run.replay_case())
-        for k in ("queries", "cache_hit", "cache_miss"):
-            res.count(k, run.stats[k])
+        for k in ("queries", "cache_hit", "cache_miss", "overlong_refused", "overlong_answered"):
+            res.count(k, run.stats.get(k, 0))
         res.sample({"slice": label, "depth": run.depth, "width": run.width, "max_key_len": run.mkl, "keys": run.case["keys"][:4],
                     "ops": run.resolved[:8], "handles": bool(run.handles)})
         if run.handles:
